@@ -98,10 +98,10 @@ def real_block_cases(chk: Check):
     import smpl_extract.transcoder as tr
     from smpl_extract.data_streams import DataStream, Endianess, StreamEncoding
     for width in (1, 2, 4):
-        for nchs in ((1,), (2,), (1, 1), (2, 1), (1, 1, 1)):
+        for nchs in ((1,), (2,), (3,), (5,), (1, 1), (2, 1), (1, 2), (3, 1), (1, 1, 1)):
             maxfs = max(n * width for n in nchs)
             B = max(1, 4096 // maxfs)
-            for lens in ((B, B), (B - 1, B + 1), (2 * B, 2 * B), (2 * B + 1, 2 * B + 1), (0, B), (3 * B - 1, 3 * B - 1)):
+            for lens in ((B, B), (B - 1, B + 1), (2 * B, 2 * B), (2 * B + 1, 2 * B + 1), (0, B), (3 * B - 1, 3 * B - 1), (5 * B + 3, 5 * B + 3)):
                 ls = [lens[i % 2] for i in range(len(nchs))]
                 for orders in (("L",) * len(nchs), ("B",) + ("L",) * (len(nchs) - 1)):
                     cfg = {"streams": [{"nch": n, "order": o, "frames": l, "partial": l % 2 == 1} for n, o, l in zip(nchs, orders, ls)],
